@@ -328,7 +328,7 @@ def show(e, depth=0):
     if k == "agg":
         return "%s{%s}" % (e[1], ", ".join(show(a) for a in e[2]))
     if k == "proj":
-        return "%s.%s" % (show(e[1]), ".".join(e[2]))
+        return "%s.%s" % (show(e[1]), ".".join(x if isinstance(x, str) else str(x) for x in e[2]))
     return "?"
 
 
